@@ -39,10 +39,12 @@ decasteljau(const std::vector<LieGroup>& trajectory,
     "Degree must be less or equal to the number of input points!");
   MANIF_CHECK(k_interp > 0,
     "k_interp must be greater than zero!");
+  MANIF_CHECK(degree > 1,
+    "Degree must be greater than one!");
 
-  // Number of connected, non-overlapping segments
+  // Number of consecutive segments of 'degree' points sharing their end points
   const unsigned int n_segments = static_cast<unsigned int>(
-      std::floor(double(trajectory.size()-degree)/double((degree-1)+1))
+      std::floor(double(trajectory.size()-1)/double(degree-1))
   );
 
   std::vector<std::vector<const LieGroup*>> segments_control_points;
